@@ -425,6 +425,54 @@ def special_port_probes(rec):
                               case=case, target="special-port", replaced_kinds="sig")
 
 
+def special_bundle_port_probes(rec):
+    """The same for BUNDLE-valued ports of a Module target called like instance attributes or methods."""
+    import hdl21 as h
+
+    for pname in ("replace", "connect", "disconnect", "name", "of", "conns", "portref", "portrefs"):
+        for kind in ("single", "array"):
+            rec.count("probe.special-port-names")
+            case = {"kind": "special-port", "port": pname, "form": "bundle:" + kind}
+            rec.case(key=jhash(case), nontrivial=True, sample=None)
+            try:
+                B = h.Bundle(name=f"SpB{next(build._counter)}")
+                B.add(h.Signal(), name="x")
+                B.add(h.Signal(), name="y")
+                child = h.Module(name=f"SpCh{next(build._counter)}")
+                child.add(B(port=True), name=pname)
+                child.add(h.Instance(of=h.R(r=1))(p=getattr(child, pname).x if pname not in ("name",) else child.get(pname).x, n=child.get(pname).y), name="r")
+            except Exception:
+                continue  # (the port name itself is refused)
+            m = h.Module(name=f"SpTopB{next(build._counter)}")
+            b1 = m.add(B(), name="b1")
+            b2 = m.add(B(), name="b2")
+            i = h.Instance(of=child) if kind == "single" else h.InstanceArray(child, 2)
+            last = None
+            try:
+                i.connect(pname, b1)
+                last = "b1"
+            except Exception:
+                continue
+            try:
+                setattr(i, pname, b2)
+                last = "b2"
+            except Exception:
+                rec.count("ops.refused")
+            try:
+                m.add(i, name="x")
+                pkg = h.to_proto(m)
+            except Exception as e:
+                # (a loud failure after an accepted assignment: the assignment corrupted the instance)
+                rec.violation(f"valid-final-mapping-rejected:{type(e).__name__}", f"instance with a bundle port named `{pname}` ({kind}), re-connected by assignment: export raised "
+                                                                                  f"{type(e).__name__}: {str(e)[:100]}", case=case, target="special-port")
+                continue
+            tops = [mm for mm in pkg.modules if mm.name.endswith(m.name)]
+            got = sorted({c.target.sig for inst in tops[0].instances for c in inst.connections})
+            if not got or not all(g.startswith(last + "_") for g in got):
+                rec.violation("history-leaves-trace", f"bundle port `{pname}` ({kind}) was last connected (by assignment) to {last}, the package ties it to {got}",
+                              case=case, target="special-port", replaced_kinds="bun")
+
+
 def run(ctx, rec):
     rng = ctx.rng("c04")
     cases = []
@@ -473,6 +521,7 @@ def run(ctx, rec):
 
     if ctx.shard == 0:
         special_port_probes(rec)
+        special_bundle_port_probes(rec)
     rec.exhaustive = False
     rec.extra["kind_sequences_enumerated"] = len(seqs)
 
@@ -485,6 +534,7 @@ def replay(ctx, rec, case):
     # re-install the concrete expressions
     if case.get("kind") == "special-port":
         special_port_probes(rec)
+        special_bundle_port_probes(rec)
         return
     kind = case["target"]
     hist = [(f, p, k) for f, p, k, _ in case["ops"]]
